@@ -21,8 +21,8 @@ BLOCKS = {
 
 
 class LState:
-    def __init__(self, client, upgraded=False):
-        self.h = H.Solo(client, handshake=not upgraded)
+    def __init__(self, client, upgraded=False, **cfg):
+        self.h = H.Solo(client, handshake=not upgraded, **cfg)
         self.dead = False
         self.extra = {}
         if upgraded:
